@@ -28,4 +28,8 @@ man = {
                        for i in ids if i not in claimed],
 }
 json.dump(man, open(os.path.join(here, 'MANIFEST.json'), 'w'), indent=1)
+# the library root imports every property module that exists, so `lake build` (setup_cmd) builds all proofs
+props = sorted(os.path.basename(f)[:-5] for f in glob.glob(os.path.join(here, 'lean', 'QP', 'Props', 'C*.lean')))
+with open(os.path.join(here, 'lean', 'QP.lean'), 'w') as f:
+    f.write('import QP.Base\n' + ''.join('import QP.Props.%s\n' % p for p in props))
 print('claimed', sorted(claimed))
